@@ -89,4 +89,21 @@ def tiny : BytesL := sigLocal ++ [1, 2, 3] ++ sigEOCD ++ List.replicate 18 0
 example : uniqueSig tiny = true ∧ tiny.take 4 = sigLocal ∧ npLoad tiny = .opened 7 ∧
     (List.range tiny.length).all (fun L => (npLoad (tiny.take L)).isError) = true := by decide
 
+/-! ### the `uniqueSig` hypothesis cannot be dropped (the known finding `C20:embedded-complete-archive`)
+
+`crafted` is a file of the shape `save()` writes — local header signature, body, end record with an empty comment — whose
+BODY contains a complete end record (array data is stored uncompressed and the 32-bit counters of a linear count-min or
+heavy-hitter sketch are caller-chosen values, so a body can spell any bytes).  `zipfile._EndRecData` tolerates trailing
+bytes after the record it finds, so strict prefixes that contain the embedded record open. -/
+def crafted : BytesL :=
+  sigLocal ++ [1, 2, 3] ++ (sigEOCD ++ List.replicate 18 0) ++ [9, 9, 9, 9, 9] ++ sigEOCD ++ List.replicate 18 0
+
+theorem C20_needs_uniqueSig :
+    crafted.take 4 = sigLocal ∧ uniqueSig crafted = false ∧
+    (∃ L, L < crafted.length ∧ (npLoad (crafted.take L)).isError = false) ∧
+    -- … precisely the prefixes that contain the embedded record and not yet the signature of the real one
+    (List.range crafted.length).all (fun L => (npLoad (crafted.take L)).isError == decide (L < 29 ∨ 38 ≤ L)) = true ∧
+    npLoad crafted = .opened (crafted.length - sizeEndCentDir) := by
+  refine ⟨by decide, by decide, ⟨29, by decide, by decide⟩, by decide, by decide⟩
+
 end Sketchnu.C20
